@@ -240,6 +240,35 @@ class Fam:
             items.append(ls[0] if len(ls) == 1 else "(or %s)" % " ".join(ls))
         return self.groups(items, k)
 
+    # --- BMC-like layers: group i relates the interface variables of layer i-1 to those of layer i (path interpolation)
+    def layers(self, k):
+        r, g = self.r, self.g
+        k = max(2, min(k, 6))
+        lv = [g.layervars[2 * i:2 * i + 2] for i in range(k - 1)]
+
+        def lit(v):
+            return v if r.random() < 0.5 else "(not %s)" % v
+
+        def clause(vs1, vs2):
+            ls = [lit(v) for v in r.sample(vs1, r.randint(1, len(vs1)))] + ([lit(v) for v in r.sample(vs2, r.randint(1, len(vs2)))] if vs2 else [])
+            return ls[0] if len(ls) == 1 else "(or %s)" % " ".join(ls)
+        out = []
+        for i in range(k):
+            left = lv[i - 1] if i > 0 else []
+            right = lv[i] if i < k - 1 else []
+            cls = []
+            for _ in range(r.randint(2, 4)):
+                if left and right:
+                    cls.append(clause(left, right))
+                else:
+                    cls.append(clause(left or right, []))
+            if r.random() < 0.25 and (left or right) and (g.num or g.usort):
+                cls.append("(= %s %s)" % (r.choice(left or right), g.atom(1)))
+            if r.random() < 0.2 and i + 1 < k - 1:
+                cls.append(clause(left or right, lv[i + 1]))        # a link that skips a layer
+            out.append(cls[0] if len(cls) == 1 else "(and %s)" % " ".join(cls))
+        return out
+
     # --- random formulas (filtered)
     def rand(self, k):
         r, g = self.r, self.g
@@ -266,7 +295,9 @@ def unsat_list(rng, logic, g, n, tries=25):
     """(family, list of n' <= n formulas) that z3 considers unsat; None when none was found"""
     fam = Fam(rng, logic, g)
     for _ in range(tries):
-        name = rng.choice(FAMILIES[logic])
+        name = rng.choice(FAMILIES[logic] + ["layers"])
+        if getattr(g, "prefer", None) and rng.random() < 0.8:
+            name = g.prefer
         fs = getattr(fam, name)(n)
         if len(fs) >= 2 and z3_unsat(logic, g.decls, fs):
             return name, fs
@@ -277,7 +308,8 @@ def request(rng, names, k):
     """a get-interpolants command over the given current names with k groups (ordered partition; the last group
     may be a subset of the remaining names: the implementation ignores it, the property does not mention it)"""
     ns = list(names)
-    rng.shuffle(ns)
+    if rng.random() < 0.5:
+        rng.shuffle(ns)         # otherwise: the order of assertion (contiguous cuts, the shape path interpolation is used in)
     k = max(2, min(k, len(ns)))
     cuts = sorted(rng.sample(range(1, len(ns)), k - 1))
     groups = [ns[a:b] for a, b in zip([0] + cuts, cuts + [len(ns)])]
@@ -294,6 +326,9 @@ def gen(rng, logic=None, kgroups=None, features=None, plain_options=False):
     """Returns (text, meta).  features: subset of {'reject','dup','unnamed','incr','repop','midopt'} or None = PRNG."""
     logic = logic or rng.choice(LOGICS)
     g = scriptgen.Gen(rng, logic, divmod=False)
+    g.layervars = ["x%d" % i for i in range(10)]
+    g.decls += ["(declare-fun %s () Bool)" % v for v in g.layervars]
+    g.prefer = "layers" if kgroups and rng.random() < 0.5 else None
     if features is None:
         features = set()
         if rng.random() < 0.08:
